@@ -360,7 +360,7 @@ func init() {
 		Rule: "real janitor gated at EvictionNeeded / Stats.Add(cache_evict); seeded cases: L in {10,100,1000}, n in {L-1,L,L+1,2L,10L}, EvictFraction in {default,0.01,0.1,0.5,0.51,1}, strategy {MostExpired,LRU,LFU}, " +
 			"trigger {none,count breach,EvictionNeeded=true once,HeapInUseSoftLimit=1,count+heap}, seeded access history; after exactly one eviction cycle the amount, the cache_evict metric and the strategy order " +
 			"(max rank of removed <= min rank of kept) are judged; distinct_nontrivial = distinct (backend,strategy,trigger,L,n,fraction) cells in which an eviction was due",
-		Required:    []string{"converge.trials", "cases.with_long_expired", "cases.no_trigger", "cases.count", "cases.needed", "cases.heap", "evictions.judged", "order.pairs_checked", "strategy.MostExpired", "strategy.LRU", "strategy.LFU"},
+		Required:    []string{"converge.trials", "cases.with_long_expired", "cases.no_trigger", "cases.count", "cases.needed", "cases.heap", "evictions.judged", "order.pairs_checked", "strategy.MostExpired", "strategy.LRU", "strategy.LFU", "lfu.heavily_served_cases"},
 		Assumptions: []string{"HeapInuse of the child process exceeds 1 byte; wall clock strictly advanced between LRU reads (spin)"},
 		Timeout:     func(string) time.Duration { return 45 * time.Minute },
 	})
@@ -565,6 +565,22 @@ func c12Case(b *Batch, idx int) {
 			rank[k] = seq
 		}
 	case "LFU":
+		if n <= 120 && rng.Intn(6) == 0 {
+			// long-lived hot entries: thousands of serves each; "least frequently" still means the smaller count
+			for _, k := range keys[:n] {
+				cnt := 4200 + rng.Intn(12000)
+				for i := 0; i < cnt; i++ {
+					if _, err := be.Read(bg, []byte(k)); err != nil {
+						fail("read", err.Error())
+						break
+					}
+				}
+				rank[k] += float64(cnt)
+			}
+			b.R.Count("lfu.heavily_served_cases", 1)
+			cell += "/heavy"
+			w["cell"] = cell
+		}
 		reads := rng.Intn(3*n + 1)
 		for i := 0; i < reads; i++ {
 			k := keys[rng.Intn(n)]
